@@ -1703,6 +1703,19 @@ def sec_observables(ctx, rng, case):
                   "measure_observables reports %r for %s*%s on an eigenstate, exact value %r" % (r_.mean, coef, letters, w_), observable=letters, **wit)
         ctx.check(r_.variance <= 1e-9 or r_.repetitions <= 1, "sampled-observable==<psi|P|psi>", "C14:measure-observables-variance",
                   "variance %r of a deterministic outcome" % (r_.variance,), observable=letters, **wit)
+    # the sampler's own convenience method: a list of values per parameter assignment, observables in the order given
+    # (single strings and sums of the eigen-observables), exact on an eigenstate for any number of samples
+    sums = []
+    if len(observables) >= 2 and rng.random() < 0.6:
+        a_, b_ = (int(x) for x in rng.choice(len(observables), size=2, replace=False))
+        sums.append((observables[a_] + observables[b_] * 0.5, want[a_] + 0.5 * want[b_]))
+    obs_list = list(observables) + [s_ for s_, _ in sums]
+    want_list = list(want) + [w_ for _, w_ in sums]
+    ns = int(rng.choice([1, 3, 10]))
+    vals = cirq.Simulator(seed=int(rng.integers(1 << 30))).sample_expectation_values(circuit, obs_list, num_samples=ns)
+    ok = len(vals) == 1 and len(vals[0]) == len(obs_list) and all(abs(v_ - w_) <= 1e-9 for v_, w_ in zip(vals[0], want_list))
+    ctx.check(ok, "sampled-observable==<psi|P|psi>", "C14:sample_expectation_values",
+              lambda: "sample_expectation_values = %r, exact values %r" % (vals, want_list), num_samples=ns, **wit)
     ctx.distinct((kind, tuple(strings), sym, reps, wit["grouper"]), nontrivial=True)
     ctx.sample({"kind": kind, "observables": strings, "sym": sym, "means": [float(r_.mean) for r_ in res]})
 
